@@ -289,6 +289,7 @@ func runJobs(ld *Loaded, prop *Property, jobs []Job, workers, timeoutMs int, dea
 					mu.Lock()
 					fmt.Println("ERROR:", err)
 					mu.Unlock()
+					os.Exit(2)
 				}
 			}
 			for k := range ch {
